@@ -21,31 +21,35 @@ CHECKS = {
  "C03": dict(
    text="Same product exploration over documents whose member names need escaping and over every spelling route (single-quoted, double-quoted, shorthand, wildcard, descendant, "
         "slice, negative index, filter): every reported path must equal the RFC 2.7 normalized path of the node identified by address, equal paths iff equal nodes, and each "
-        "reported path re-run as a query must return exactly that node with that path.",
+        "reported path re-run as a query must return exactly that node with that path. Plus call histories: every sequence of up to two (thorough: three) calls over six entry points x "
+        "valid and rejected query strings on a fresh thread, followed by probe queries whose reported paths are checked against the node locations.",
    design="4.C03 / 2", note=BFS_NOTE, technique="explicit-state BFS of the nodelist transition system with a normalized-path oracle and a re-query round trip per reported path"),
  "C04": dict(
    text="Exhaustive table: every ordered pair of values of a fixed universe (all JSON types, integer/float spellings of equal numbers, strings that order differently by code point and UTF-16, "
         "structurally equal containers with different number representations or member order, and 'nothing') x six operators x operand forms (member, bracket name, index, root query, "
         "literal on either side, value()/length()/count() results), each cell decided by a real filter query and compared with the RFC 2.3.5.2.2 comparison of the reference model; "
-        "plus the algebraic laws (!= vs ==, <= vs < or ==, mirror, trichotomy) checked on the observed truth values independently of the model.",
+        "the number universe includes neighbouring doubles (one ulp apart) around 1 and 2^52 in integer and float representation; plus the algebraic laws (!= vs ==, <= vs < or ==, mirror, trichotomy) checked on the observed truth values independently of the model.",
    design="4.C04", note="trusted base: the comparison function of the reference model (validated against the RFC 9535 2.3.5.3 comparison table at start-up); universe restricted to finite numbers within +-(2^53-1)",
    technique="exhaustive enumeration of the finite comparison table (all value pairs x operators x operand forms) against a reference model, plus model-independent algebraic laws"),
  "C11": dict(
-   text="Exhaustive cube: every (start, end, step) over absent / every integer of a range / the I-JSON extremes, times every array length up to a bound, in seven contexts (root, below a name, "
-        "below a wildcard, under a descendant segment, non-array targets, index segments of singular queries in comparisons, slices applied to the current node of a filter "
+   text="Exhaustive cube: every (start, end, step) over absent / every integer of a range / the I-JSON extremes, times every array length up to a bound, in several contexts (root, below a name, "
+        "below a wildcard, under a descendant segment, non-array targets, nodelists that mix arrays with non-arrays below a wildcard and under a descendant segment - alone and inside a union "
+        "with a name selector in either order -, index segments of singular queries in comparisons, slices applied to the current node of a filter "
         "and consumed by count() or a following segment), through the parser and through programmatically built queries; expected index sequence from the RFC 2.3.4.2.2 "
         "pseudo-code transcribed with 128-bit arithmetic; node identity, order and path compared; per-case wall-clock horizon for termination.",
    design="4.C11", note="trusted base: slice_indices in the reference model (literal transcription of the RFC pseudo-code, checked against the RFC slice examples at start-up); bounds: parameter range and array lengths in the evidence file",
    technique="exhaustive enumeration of the slice/index parameter cube x array lengths x contexts against the RFC pseudo-code"),
  "C14": dict(
    text="Exhaustive table: every first argument of a value universe x every second argument (all arrays up to a length over an element set including nested and empty containers, non-arrays, "
-        "missing) x the five functions x argument forms (@, @.x, bracketed with blanks, negated, literal), decided by real filter queries and compared with the set-membership definition in the property.",
+        "missing) x the five functions x argument forms (@, @.x, bracketed with blanks, negated, literal, long lists, and aliased arguments: both arguments one node, an element of its own list, an absolute path to a member of "
+        "child k for every k), decided by real filter queries and compared with the set-membership definition in the property.",
    design="4.C14", note="trusted base: the 20-line set-semantics oracle in mc/src/checks/ext.rs; element equality only between values where structural equality and RFC == coincide",
    technique="exhaustive enumeration of the finite argument table of the five extension functions against a set-semantics oracle"),
  "C06": dict(
    text="Exhaustive language enumeration: every token string up to n tokens after `$`, every character string up to m characters over a raw alphabet, every sentence of a generative "
         "encoding of the RFC grammar (all comparable pairs x operators, functions with every argument kind, Boolean structure, segment sequences) with a blank of each kind at every "
-        "boundary, one-position families (class-boundary characters, every escape, upper/lower/mixed hex, all surrogate pairings, integer and number shapes) and every single-token edit; "
+        "boundary, one-position families (class-boundary characters, every escape, upper/lower/mixed hex, all surrogate pairings, integer and number shapes, every sequence of up to three (four) escape-level tokens inside a string in six positions, every slice of a cube and every small index inside function "
+        "arguments) and every single-token edit; "
         "each string is classified by an independent RFC recogniser; every string it calls valid must be accepted by the real parser.",
    design="4.C06/C07", note="trusted base: the hand-written recogniser mc/src/model/parse.rs (ABNF + I-JSON range + function well-typedness), cross-checked at start-up against the sentence generator and the RFC's examples; unknown function names and out-of-range integer literals are don't-care",
    technique="exhaustive enumeration of bounded string spaces (all token strings <= n, all character strings <= m, all grammar sentences up to a size, all single-token edits) classified by a reference recogniser"),
@@ -67,14 +71,16 @@ CHECKS = {
         "must do the work, fully parenthesised, with blanks), decided for every valuation of the members (absent / null / false / 0 / \"\" / [] / {} / 1) by one packed filter query, "
         "for four atom assignments (existence, comparison, function test, bracket / root forms) and both container kinds; two oracles: the reference model and, independently, Boolean "
         "algebra over the kept-sets the implementation itself reports for the atoms. Part 2: the scoping family (filters nested in filter queries, `$` inside nested filters, `@` at "
-        "several levels) over a compositional item universe.",
+        "several levels) over a compositional item universe. Part 3: every `$`-dependent scoping query parsed once and kept while the document held by one variable runs through every ordered pair of root "
+        "values (replaced as a whole, or updated in place).",
    design="4.C05", note="trusted base: reference model; the Boolean-algebra oracle needs none; bounds: k, the valuation universe, the scoping query list",
    technique="exhaustive enumeration of Boolean formulas x valuations (truth-table checking) against a reference model and a model-independent compositional oracle"),
  "C10": dict(
    text="Regex: every pattern string of AST size <= s over literals, dot, classes, escaped dot, anchors, groups, alternation and the three quantifiers, plus invalid patterns and patterns "
         "with quotes / backslashes, x every subject over {a,b} up to length 3 plus special and non-string subjects, x match/search x pattern supplied from the document, as a single-quoted "
         "literal, and negated as a double-quoted literal. Values: length/count/value over the whole C04 value universe (and nothing) in comparisons against literals and each other, "
-        "nodelists of size 0..3 from member, wildcard, descendant, empty slice and filter queries. Oracle: reference model, whose matcher is first cross-checked against the regex crate on the same universe.",
+        "nodelists of size 0..3 from member, wildcard, descendant, empty slice and filter queries; arguments reached through every kind of singular-query segment (names, bracketed names, "
+        "positive, negative and out-of-range indices, nested, rooted at `$`) in every parameter position. Oracle: reference model, whose matcher is first cross-checked against the regex crate on the same universe.",
    design="4.C10", note="trusted base: regex_ref (backtracking matcher, ~250 lines) validated against the regex crate at start-up; `^`/`$` are assertions; subjects have no line terminators",
    technique="exhaustive enumeration of a bounded regular-expression language x subject strings, and of function-argument tables, against a reference model"),
  "C09": dict(
@@ -82,30 +88,31 @@ CHECKS = {
         "universe, the panel) and every node, reference(normalized path) must return that very node (by address) and reference_mut must give a handle whose write changes exactly "
         "that node (whole-document comparison against the model's set) for each of five written values; every neighbouring location that does not exist must yield None and leave the "
         "document untouched. Update histories: breadth-first search over the documents reachable by sequences of writes through the paths of one initial query, de-duplicated on the "
-        "document, each write executed on the implementation and on the reference model (including paths that dangle after an earlier write).",
+        "document, each write executed on the implementation and on the reference model (including paths that dangle after an earlier write). Feed-back: the (node, path) pairs reported by wildcard and filter routes over array elements and object members are compared "
+        "position by position with the model - a correct path must carry exactly its node.",
    design="4.C09", note="trusted base: normpath and the 15-line model_set; bounds: document universes, written values, history depth",
    technique="exhaustive node sweep plus explicit-state BFS over update histories, every transition executed on the implementation and a reference model"),
  "C12": dict(
    text="Three explorations. (1) Entry-point agreement on the generated query set x document panel: query, query_only_path, query_with_path, a query parsed once (run twice, and cloned) "
-        "agree position by position and leave the document unchanged. (2) Histories: every ordered pair of a 32-operation alphabet (chosen to collide on anything a cache could key on) "
-        "in its own fresh process, and every window of length w in one long-lived process, each result compared with the same operation run first in a fresh process. (3) Schedules: "
+        "agree position by position and leave the document unchanged. (2) Histories: every ordered pair of a 49-operation alphabet (chosen to collide on anything a cache could key on: same pattern with match and search, rejected queries, escaped names of equal length) "
+        "in its own fresh process, and every window of length w - the windows that start with the same operation run in lexicographic order in one fresh process -, each result compared with the same operation run first in a fresh process. (3) Schedules: "
         "stateless depth-first exploration of every interleaving with at most k preemptions (iterated 0..k) of two or three real threads sharing one parsed query and one document, "
         "with scheduling points hooked into every evaluation step of jsonpath-rust (4 general harnesses + one harness per evaluation construct with the query parsed afresh for every "
         "execution; every exploration job runs in a fresh subprocess in deterministic order); each thread's results must equal the operations run alone; failing schedules are reproduced in "
         "two more fresh processes. (1b) the string entry points on every edge of a nodelist-transition BFS; (2c) queries interleaved with in-place updates of a live document against an equal "
-        "freshly built document. A supplementary free-running multi-thread pass is sampled, can only raise true alarms and is not counted as coverage.",
+        "freshly built document, with the queries also parsed once and kept over all update sequences; one kept parsed query per sentence over the whole panel copied into one variable. A supplementary free-running multi-thread pass is sampled, can only raise true alarms and is not counted as coverage.",
    design="4.C12", note="scheduling points exist only at the cfg-guarded hooks (entry of every Query::process impl, each filter item, between regex compilation and matching); Send + Sync is a type-check side condition (mc/static_assert); bounds: operation alphabet, window length, harness bodies, preemption bound",
    technique="stateless preemption-bounded schedule exploration of the real code under a controlled scheduler, plus exhaustive operation-history enumeration against a fresh-process baseline"),
  "C13": dict(
    text="For every abstract query of the generated set, every concrete spelling with one deviation from the canonical rendering (and all pairs / triples of deviations for every n-th query, "
         "plus all-sites-at-once variants): name as .n / ['n'] / [\"n\"], .* / [*], ..n / ..['n'], ?e / ?(e) / ?((e)), redundant parentheses, string and number literal spellings, each blank "
-        "kind at each S site. Differential oracle: same parse outcome and same node sequence by address as the canonical spelling on every panel document. Every generated spelling is first "
+        "kind at each S site. Differential oracle: same parse outcome and same node sequence by address as the canonical spelling on every panel document (the panel includes documents with decoy members named like every spelling of their siblings' names). Every generated spelling is first "
         "required to be valid by the RFC recogniser (machinery guard).",
    design="4.C13", note="differential (no model needed for the verdict); bounds: abstract query set, k, document panel",
    technique="exhaustive enumeration of spelling variants up to k deviations with a differential oracle against the canonical spelling"),
  "C15": dict(
    text="Lock-step evaluation at five views of the same documents through all three trait entry points (query, query_with_path, query_only_path): serde_json::Value, an association-list "
-        "view with one number type, a strict-accessor view, a hash-consed view in which equal sub-documents share storage, and a view presenting members in sorted order (compared as "
+        "view with one number type, a strict-accessor view, a hash-consed view in which equal sub-documents share storage (the three with three different non-null `Default` values), and a view presenting members in sorted order (compared as "
         "multisets): the generated query set x panel (incl. JSON-Pointer look-alike documents), the whole comparison table packed into one document, the slice cube; paths and serialized values must be identical.",
    design="4.C15", note="the alternative views strip key quotes exactly like the Value implementation (the trait leaves it to the implementor); extension functions are Value-only and excluded",
    technique="exhaustive enumeration of the query/document spaces of the other checks, run in lock-step over several trait implementations (differential)"),
